@@ -83,7 +83,7 @@ def behaviours(kind, weighted, tier, seed):
     if tier == "quick":
         sims = [(3, 9, 6, 30)]
         exh = [(2, 2)]
-        py = [(4, 14, 14), (5, 18, 6)]
+        py = [(4, 14, 40), (5, 18, 16), (3, 12, 20)]
     else:
         sims = [(3, 10, 40, 400), (3, 14, 30, 300), (4, 10, 10, 150)]
         exh = [(2, 3), (3, 2)]
